@@ -118,7 +118,12 @@ func cmdDump(args []string) {
 		for _, o := range vc.obligs {
 			fmt.Printf("  %-8s %-9s %6.2fs %s  [%s] %s\n", o.Verdict, o.Solver, o.TimeS, o.ID, o.Pos, o.Desc)
 			if *smt != "" && regexp.MustCompile(*smt).MatchString(o.ID) {
-				fmt.Println(o.scriptText)
+				if os.Getenv("GOVC_SLIM") != "" && o.slimText != "" {
+					fmt.Println(o.slimText)
+				} else {
+					fmt.Println(o.scriptText)
+				}
+				fmt.Println("; attempts:", o.Attempts)
 				if o.Model != "" {
 					fmt.Println(o.Model)
 				}
@@ -213,6 +218,12 @@ func cmdCheck(args []string) int {
 	}
 	run := newRun(e, *prop, *tier, seed, *verif)
 	run.verbose = *verbose
+	if data, err := os.ReadFile(filepath.Join(*verif, "specs", "unclaimed.json")); err == nil {
+		if err := json.Unmarshal(data, &run.unclaimed); err != nil {
+			fmt.Fprintln(os.Stderr, "unclaimed.json:", err)
+			return 2
+		}
+	}
 	if len(e.loadErrs) > 0 {
 		// the tree does not type-check: nothing can be proved about it
 		run.addSynthetic("load#typecheck", "binding", "the repository type-checks with -tags verif", strings.Join(e.loadErrs, "; "))
